@@ -172,4 +172,19 @@ theorem zip_map_fst {α β : Type} (l : List α) (m : List β) (h : l.length ≤
     | nil => simp at h
     | cons b m => simp [ih m (by simpa using h)]
 
+/-- the exception classes named in an `except` clause, as the model's error enum (any other class: `other`) -/
+def pyErrOfName : String → PyErr
+  | "TypeError" => .typeError
+  | "IndexError" => .indexError
+  | "KeyError" => .keyError
+  | _ => .other
+
+/-- `isvalidcdr3With` depends on the caught list only through membership -/
+theorem isvalidcdr3With_congr (c1 c2 : List PyErr) (h : ∀ e, c1.contains e = c2.contains e) (A : List Char) (o : PyObj) :
+    isvalidcdr3With c1 A o = isvalidcdr3With c2 A o := by
+  unfold isvalidcdr3With
+  cases isvalidcdr3Body A o with
+  | ok b => rfl
+  | error e => simp only [h e]
+
 end Prs
